@@ -135,6 +135,7 @@ func (s *sim) mkPool(p *PoolSpec) *v1.NodePool {
 		}
 		np.Spec.Template.Spec.Requirements = append(np.Spec.Template.Spec.Requirements, req)
 	}
+	s.frameDecoratePool(np, p) // C18: PoolSpec.Ext
 	np.Annotations = map[string]string{v1.NodePoolHashAnnotationKey: np.Hash(), v1.NodePoolHashVersionAnnotationKey: v1.NodePoolHashVersion}
 	return np
 }
